@@ -334,6 +334,14 @@ def fd_cases(draw):
     cfg = draw(cases(kinds=("gauss", "quartic", "logreg", "banana", "mix")))
     cfg["hmc"]["grad"] = False
     cfg["zero_mode"] = [draw(st.sampled_from(["generic", "generic", "zero", "tiny", "neg"])) for _ in range(cfg["d"])]
+    # "at every point": also where the density sits far from zero compared with its own width (up to 1e4 widths)
+    if cfg["target"]["kind"] == "gauss" and draw(st.integers(0, 2)) == 0:
+        k = draw(st.sampled_from([1e2, 1e3, 1e4, -1e3, -1e4]))
+        L = np.array(cfg["target"]["chol"], dtype=float).reshape(cfg["d"], cfg["d"])
+        sd = np.sqrt(np.diag(L @ L.T))
+        cfg["target"]["mean"] = [float(m + k * v) for m, v in zip(cfg["target"]["mean"], sd)]
+        cfg["far"] = k
+        cfg["zero_mode"] = ["generic"] * cfg["d"]
     return cfg
 
 
@@ -367,10 +375,13 @@ def body_finite_diff(case, ctx):
     ctx.ratio("finite-diff", float(np.max(err / (1e-3 * scale))), 1.0)
     if not np.all(np.isfinite(g)) or np.any(err > 1e-3 * scale):
         i = int(np.argmax(np.where(np.isfinite(err), err, np.inf)))
+        if case.get("far"):
+            tag = "far-from-zero"
         raise Violation(f"finite-diff:{tag}", f"{case['target']['kind']} d={case['d']} T={case['T']}: estimated gradient[{i}] = {g[i]!r}, true {want[i]!r} at t = {t} (modes {case['zero_mode']})")
     ctx.nontrivial(tag == "zero-coordinate")
     ctx.event(tag)
     ctx.event("bounded" if box is not None else "free")
+    ctx.event("location=%g widths from zero" % abs(case["far"]) if case.get("far") else "location~0")
 
 
 SUBCHECKS = [
